@@ -5,6 +5,7 @@
 // merge function reports a change.
 use vstd::prelude::*;
 use std::sync::Arc;
+use std::cmp;
 use vstd::std_specs::cmp::*;
 use vstd::std_specs::iter::IteratorSpec;
 verus! {
@@ -13,6 +14,7 @@ global size_of usize == 8;
 //@ include prelude/std_extra.vs
 broadcast use {nid::ax_id_eq, nid::ax_id_cmp, nid::ax_id_obeys_eq, nid::ax_id_obeys_cmp, nid::ax_id_obeys_partial_cmp, nid::ax_id_partial_cmp, stdx::ax_iter_seq_vec};
 //@ idtype Value RowId ColumnId ShardId
+//@ idtype64 Generation Offset
 
 #[verifier::external_body]
 pub fn vc_panic() -> (r: bool)
@@ -62,31 +64,6 @@ impl TableEntry {
     pub fn hashcode(&self) -> (r: u64) ensures r == self.hashcode { unimplemented!() }
 }
 
-/// A-db: the row store: all rows ever appended, stale ones marked in column 0 (Rows / RowBuffer)
-#[verifier::external_body]
-pub struct Rows { _p: core::marker::PhantomData<u8> }
-impl Rows {
-    pub uninterp spec fn view(&self) -> Seq<Seq<Value>>;
-    #[verifier::external_body]
-    pub fn get_row(&self, row: RowId) -> (r: Option<&[Value]>)
-        requires row.ix() < self@.len(),
-        ensures match r { Some(x) => x@ == self@[row.ix() as int] && !stale(self@[row.ix() as int]), None => stale(self@[row.ix() as int]) }
-    { unimplemented!() }
-    #[verifier::external_body]
-    pub fn add_row(&mut self, row: &[Value]) -> (r: RowId)
-        ensures r.ix() == old(self)@.len(), final(self)@ == old(self)@.push(row@)
-    { unimplemented!() }
-    #[verifier::external_body]
-    pub fn set_stale(&mut self, row: RowId)
-        requires row.ix() < old(self)@.len(), old(self)@[row.ix() as int].len() > 0,
-        ensures
-            final(self)@.len() == old(self)@.len(),
-            stale(final(self)@[row.ix() as int]),
-            final(self)@[row.ix() as int].len() == old(self)@[row.ix() as int].len(),
-            forall|j: int| 0 <= j < old(self)@.len() && j != row.ix() ==> final(self)@[j] == old(self)@[j],
-    { unimplemented!() }
-}
-
 /// A-hash: the sharded hash table as a map  row id -> stored hash code  (the entries; hashbrown behind it)
 #[verifier::external_body]
 #[verifier::reject_recursive_types(T)]
@@ -99,6 +76,8 @@ impl ShardedHashTable<TableEntry> {
     pub uninterp spec fn view(&self) -> Map<RowId, u64>;
     #[verifier::external_body]
     pub fn shard_data(&self) -> ShardData { unimplemented!() }
+    #[verifier::external_body]
+    pub fn clear(&mut self) ensures final(self)@ == Map::<RowId, u64>::empty() { unimplemented!() }
     // every level of `mut_shards()[i]` is viewed as the whole map: the shard split is below the abstraction
     #[verifier::external_body]
     pub fn mut_shards(&mut self) -> (r: &mut Shards)
@@ -142,6 +121,16 @@ pub fn get_entry_mut<'a, F: Fn(RowId) -> bool>(row: &[Value], n_keys: usize, tab
     }
 { unimplemented!() }
 
+// A-hash: get_entry (hashbrown find on the key's shard): the read-only twin of get_entry_mut
+#[verifier::external_body]
+pub fn get_entry<F: Fn(RowId) -> bool>(row: &[Value], n_keys: usize, table: &ShardedHashTable<TableEntry>, test: F) -> (r: Option<RowId>)
+    requires n_keys <= row@.len(),
+    ensures match r {
+        Some(e) => table@.contains_key(e) && table@[e] == hcs(row@.subrange(0, n_keys as int)) && test.ensures((e,), true),
+        None => forall|id: RowId| #[trigger] table@.contains_key(id) && table@[id] == hcs(row@.subrange(0, n_keys as int)) ==> test.ensures((id,), false),
+    }
+{ unimplemented!() }
+
 /// the table's merge function as a pure function of (stored row, incoming row): changed? / merged row
 /// (unit merge proves that the bridge's callback is of this shape: row_changes / merged_row)
 pub uninterp spec fn mch(cur: Seq<Value>, new: Seq<Value>) -> bool;
@@ -179,17 +168,20 @@ impl RowBuffer {
     pub fn add_row(&mut self, row: &[Value]) -> (r: RowId)
         ensures r.ix() == old(self)@.len(), final(self)@ == old(self)@.push(row@)
     { unimplemented!() }
+    // set_stale marks column 0 of the row and returns whether the row was stale already
     #[verifier::external_body]
-    pub fn set_stale(&mut self, row: RowId)
+    pub fn set_stale(&mut self, row: RowId) -> (r: bool)
         requires row.ix() < old(self)@.len(), old(self)@[row.ix() as int].len() > 0,
         ensures
+            r == stale(old(self)@[row.ix() as int]),
             final(self)@.len() == old(self)@.len(),
-            stale(final(self)@[row.ix() as int]),
-            final(self)@[row.ix() as int].len() == old(self)@[row.ix() as int].len(),
+            final(self)@[row.ix() as int] == old(self)@[row.ix() as int].update(0, Value { rep: u32::MAX }),
             forall|j: int| 0 <= j < old(self)@.len() && j != row.ix() ==> final(self)@[j] == old(self)@[j],
     { unimplemented!() }
     #[verifier::external_body]
     pub fn len(&self) -> (r: usize) ensures r == self@.len() { unimplemented!() }
+    #[verifier::external_body]
+    pub fn reserve(&mut self, additional: usize) ensures final(self)@ == old(self)@ { unimplemented!() }
     #[verifier::external_body]
     pub fn clear(&mut self) ensures final(self)@.len() == 0 { unimplemented!() }
     // A-db: the non-stale rows of a staged buffer, in order; all of the table's arity
@@ -198,6 +190,99 @@ impl RowBuffer {
         ensures forall|k: int| 0 <= k < r@.len() ==> (#[trigger] r@[k])@.len() == table_arity() && !stale(r@[k]@)
     { unimplemented!() }
 }
+/// number of rows marked stale in a row store
+pub open spec fn stale_count(rows: Seq<Seq<Value>>) -> nat
+    decreases rows.len()
+{
+    if rows.len() == 0 { 0 } else { stale_count(rows.drop_last()) + (if stale(rows.last()) { 1nat } else { 0nat }) }
+}
+pub proof fn lemma_stale_count_bound(rows: Seq<Seq<Value>>)
+    ensures stale_count(rows) <= rows.len()
+    decreases rows.len()
+{
+    if rows.len() > 0 { lemma_stale_count_bound(rows.drop_last()); }
+}
+pub proof fn lemma_stale_count_set(a: Seq<Seq<Value>>, b: Seq<Seq<Value>>, i: int)
+    requires a.len() == b.len(), 0 <= i < a.len(), !stale(a[i]), stale(b[i]), forall|j: int| 0 <= j < a.len() && j != i ==> #[trigger] b[j] == a[j],
+    ensures stale_count(b) == stale_count(a) + 1
+    decreases a.len()
+{
+    if i == a.len() - 1 {
+        assert(a.drop_last() =~= b.drop_last());
+    } else {
+        lemma_stale_count_set(a.drop_last(), b.drop_last(), i);
+        assert(a.last() == b.last());
+    }
+}
+pub proof fn lemma_stale_count_lt(rows: Seq<Seq<Value>>, i: int)
+    requires 0 <= i < rows.len(), !stale(rows[i]),
+    ensures stale_count(rows) < rows.len()
+    decreases rows.len()
+{
+    if i == rows.len() - 1 { lemma_stale_count_bound(rows.drop_last()); } else { lemma_stale_count_lt(rows.drop_last(), i); }
+}
+pub proof fn lemma_stale_count_push(a: Seq<Seq<Value>>, r: Seq<Value>)
+    ensures stale_count(a.push(r)) == stale_count(a) + (if stale(r) { 1nat } else { 0nat })
+{
+    assert(a.push(r).drop_last() =~= a);
+}
+
+/// the row store of a SortedWritesTable: all rows ever appended, superseded ones marked stale in column 0; a thin
+/// wrapper around RowBuffer that counts the stale rows (real struct and methods, verified below)
+//@ item core-relations/src/table/mod.rs struct Rows
+impl Rows {
+    pub open spec fn view(&self) -> Seq<Seq<Value>> { self.data@ }
+    /// stale_rows is the number of rows marked stale
+    pub open spec fn counted(&self) -> bool { self.stale_rows == stale_count(self.data@) }
+}
+//@ impl core-relations/src/table/mod.rs impl Rows
+//@ fn clear
+//@ at sig
+        ensures final(self)@.len() == 0, final(self).counted(),
+//@ end-fn
+//@ fn next_row
+//@ ret r
+//@ at sig
+        ensures r.ix() == self@.len(),
+//@ end-fn
+//@ fn set_stale
+//@ at sig
+        requires row.ix() < old(self)@.len(), old(self)@[row.ix() as int].len() > 0, old(self).counted(), old(self)@.len() <= usize::MAX,
+        ensures
+            final(self).counted(),
+            old(self)@[row.ix() as int].len() == final(self)@[row.ix() as int].len(),
+            final(self)@.len() == old(self)@.len(),
+            stale(final(self)@[row.ix() as int]),
+            final(self)@[row.ix() as int].len() == old(self)@[row.ix() as int].len(),
+            forall|j: int| 0 <= j < old(self)@.len() && j != row.ix() ==> final(self)@[j] == old(self)@[j],
+//@ at entry
+        let ghost r0 = self.data@;
+        proof { if !stale(r0[row.ix() as int]) { lemma_stale_count_lt(r0, row.ix() as int); } }
+//@ at end
+        proof {
+            if !stale(r0[row.ix() as int]) { lemma_stale_count_set(r0, self.data@, row.ix() as int); }
+            else {
+                assert(self.data@[row.ix() as int] =~= r0[row.ix() as int]);
+                assert(self.data@ =~= r0);
+            }
+        }
+//@ end-fn
+//@ fn get_row
+//@ ret r
+//@ at sig
+        requires row.ix() < self@.len(), self@[row.ix() as int].len() > 0,
+        ensures match r { Some(x) => x@ == self@[row.ix() as int] && !stale(self@[row.ix() as int]), None => stale(self@[row.ix() as int]) }
+//@ end-fn
+//@ fn add_row
+//@ ret r
+//@ at sig
+        requires row@.len() > 0, old(self).counted(), old(self)@.len() < usize::MAX,
+        ensures r.ix() == old(self)@.len(), final(self)@ == old(self)@.push(row@), final(self).counted(),
+//@ at entry
+        proof { lemma_stale_count_bound(self.data@); lemma_stale_count_push(self.data@, row@); }
+//@ end-fn
+//@ end-impl
+
 #[verifier::external_body]
 #[verifier::reject_recursive_types(K)]
 #[verifier::reject_recursive_types(V)]
@@ -261,12 +346,35 @@ impl StagedMergeFn {
     { unimplemented!() }
 }
 
-pub struct PendingState { pub pending_rows: DenseIdMap<ShardId, SegQueue<RowBuffer>> }
+// A-db: the atomic counters of staged rows (only their sum decides serial vs parallel; both paths have the same contract)
+#[verifier::external_body]
+pub struct AtomicUsize { _p: core::marker::PhantomData<u8> }
+pub enum Ordering { Relaxed }
+impl AtomicUsize {
+    #[verifier::external_body]
+    pub fn swap(&self, v: usize, o: Ordering) -> usize { unimplemented!() }
+}
+#[verifier::external_body]
+pub fn parallelize_table_op(table_size: usize) -> bool { unimplemented!() }
+pub struct PendingState { pub pending_rows: DenseIdMap<ShardId, SegQueue<RowBuffer>>, pub total_removals: AtomicUsize, pub total_rows: AtomicUsize }
+impl PendingState {
+    // A-db: drops every staged insert and removal (SegQueue pops); no table content is touched
+    #[verifier::external_body]
+    pub fn clear(&self) { unimplemented!() }
+}
 
-//@ item core-relations/src/table/mod.rs struct SortedWritesTable only data hash n_keys sort_by offsets pending_state merge
+//@ item core-relations/src/table/mod.rs struct SortChecker
+//@ item core-relations/src/table_spec.rs struct TableVersion
+//@ item core-relations/src/table_spec.rs struct TableChange
+//@ item core-relations/src/table_spec.rs struct Row
+//@ item core-relations/src/table/mod.rs struct SortedWritesTable only generation data hash n_keys n_columns sort_by offsets pending_state merge
 
 // ---------------- the keyed-map view ------------------------------------------------------------------------------
 pub open spec fn keyof(row: Seq<Value>, n_keys: nat) -> Seq<Value> { row.subrange(0, n_keys as int) }
+/// within one major generation row ids are stable: rows are only appended or marked stale
+pub open spec fn rows_extend(a: Seq<Seq<Value>>, b: Seq<Seq<Value>>) -> bool {
+    a.len() <= b.len() && forall|i: int| 0 <= i < a.len() ==> (#[trigger] b[i] == a[i] || stale(b[i]))
+}
 
 /// assumption on the merge function (the bridge's callback satisfies it: the merged row keeps the incoming keys)
 pub open spec fn merge_keeps_key(n_keys: nat) -> bool {
@@ -318,7 +426,7 @@ impl KM {
 impl SortedWritesTable {
     pub open spec fn km(&self) -> KM { KM { rows: self.data@, idx: self.hash@, n_keys: self.n_keys as nat } }
     pub open spec fn wf_shape(&self) -> bool {
-        km_shape(self.data@, self.n_keys as nat) && (self.sort_by is Some ==> self.sort_by->Some_0.ix() < table_arity())
+        km_shape(self.data@, self.n_keys as nat) && (self.sort_by is Some ==> self.sort_by->Some_0.ix() < table_arity()) && self.data.counted()
     }
     pub open spec fn wf_entries(&self) -> bool { km_entries(self.data@, self.hash@, self.n_keys as nat) }
     pub open spec fn wf_distinct(&self) -> bool { km_distinct(self.data@, self.hash@, self.n_keys as nat) }
@@ -474,6 +582,9 @@ pub proof fn lemma_chain_push(n: nat, first: KM, t0: KM, ts: Seq<KM>, qs: Seq<Se
             final(self).wf(),
             final(self).n_keys == old(self).n_keys,
             final(self).sort_by == old(self).sort_by,
+            final(self).n_columns == old(self).n_columns, final(self).generation == old(self).generation,
+            // row ids stay valid: rows are only appended or marked stale
+            rows_extend(old(self).data@, final(self).data@),
             // C05: the final contents are the initial ones with every pending row applied through the merge function
             exists|ts: Seq<KM>, qs: Seq<Seq<Value>>| #![trigger wit(ts, qs)] wit(ts, qs) && chain(old(self).n_keys as nat, old(self).km(), final(self).km(), ts, qs),
 //@ at entry
@@ -504,6 +615,7 @@ pub proof fn lemma_chain_push(n: nat, first: KM, t0: KM, ts: Seq<KM>, qs: Seq<Se
                     chain(n_keys as nat, old(self).km(), self.km(), ts, qs),
                     merge_keeps_key(n_keys as nat), n_keys == self.n_keys, scratch@.len() == 0,
                     self.n_keys == old(self).n_keys, self.sort_by == old(self).sort_by,
+                    self.n_columns == old(self).n_columns, self.generation == old(self).generation, rows_extend(old(self).data@, self.data@),
 //@ at before-loop 1
                 #[verifier::loop_isolation(false)]
 //@ at loop 1 spec
@@ -515,6 +627,7 @@ pub proof fn lemma_chain_push(n: nat, first: KM, t0: KM, ts: Seq<KM>, qs: Seq<Se
                     chain(n_keys as nat, old(self).km(), self.km(), ts, qs),
                     merge_keeps_key(n_keys as nat), n_keys == self.n_keys, scratch@.len() == 0,
                     self.n_keys == old(self).n_keys, self.sort_by == old(self).sort_by,
+                    self.n_columns == old(self).n_columns, self.generation == old(self).generation, rows_extend(old(self).data@, self.data@),
 //@ at before-loop 2
                     #[verifier::loop_isolation(false)]
 //@ at loop 2 spec
@@ -527,6 +640,7 @@ pub proof fn lemma_chain_push(n: nat, first: KM, t0: KM, ts: Seq<KM>, qs: Seq<Se
                     chain(n_keys as nat, old(self).km(), self.km(), ts, qs),
                     merge_keeps_key(n_keys as nat), n_keys == self.n_keys, scratch@.len() == 0,
                     self.n_keys == old(self).n_keys, self.sort_by == old(self).sort_by,
+                    self.n_columns == old(self).n_columns, self.generation == old(self).generation, rows_extend(old(self).data@, self.data@),
 //@ at loop 2 body-start
                         let ghost t0 = self.km();
 //@ at loop 2 body-end
@@ -556,6 +670,7 @@ pub proof fn lemma_chain_push(n: nat, first: KM, t0: KM, ts: Seq<KM>, qs: Seq<Se
                     chain(n_keys as nat, old(self).km(), self.km(), ts, qs),
                     merge_keeps_key(n_keys as nat), n_keys == self.n_keys, scratch@.len() == 0,
                     self.n_keys == old(self).n_keys, self.sort_by == old(self).sort_by,
+                    self.n_columns == old(self).n_columns, self.generation == old(self).generation, rows_extend(old(self).data@, self.data@),
 //@ at before-loop 4
                     #[verifier::loop_isolation(false)]
 //@ at loop 4 spec
@@ -568,6 +683,7 @@ pub proof fn lemma_chain_push(n: nat, first: KM, t0: KM, ts: Seq<KM>, qs: Seq<Se
                     chain(n_keys as nat, old(self).km(), self.km(), ts, qs),
                     merge_keeps_key(n_keys as nat), n_keys == self.n_keys, scratch@.len() == 0,
                     self.n_keys == old(self).n_keys, self.sort_by == old(self).sort_by,
+                    self.n_columns == old(self).n_columns, self.generation == old(self).generation, rows_extend(old(self).data@, self.data@),
 //@ at loop 4 body-start
                         let ghost t0 = self.km();
 //@ at loop 4 body-end
@@ -587,6 +703,191 @@ pub proof fn lemma_chain_push(n: nat, first: KM, t0: KM, ts: Seq<KM>, qs: Seq<Se
                             qs = qs.push(query@);
                         }
 //@ end-fn
+//@ fn do_delete
+//@ ret r
+//@ at sig
+        requires old(self).wf(),
+        ensures final(self).wf(), only_removes(*old(self), *final(self)),
+//@ end-fn
+//@ fn do_insert
+//@ ret r
+//@ rewrite R-CLOSPAT &(Value,RowId) Value
+//@ at sig
+        requires old(self).wf(), merge_keeps_key(old(self).n_keys as nat),
+        ensures
+            final(self).wf(), same_config(*old(self), *final(self)), final(self).generation == old(self).generation,
+            rows_extend(old(self).data@, final(self).data@),
+            // whichever path is taken, every staged row is applied through the merge function
+            exists|ts: Seq<KM>, qs: Seq<Seq<Value>>| #![trigger wit(ts, qs)] wit(ts, qs) && chain(old(self).n_keys as nat, old(self).km(), final(self).km(), ts, qs),
+//@ at closure 0 spec
+                            ensures r == __p.0
+//@ end-fn
+//@ fn maybe_rehash
+//@ at sig
+        requires old(self).wf(), old(self).generation.ix() < u64::MAX,
+        ensures
+            final(self).wf(), same_config(*old(self), *final(self)), same_live(old(self).km(), final(self).km()),
+            // compaction exactly when more than max(16, n/2) rows are stale; it changes the major generation, because
+            // row ids change; otherwise nothing changes at all
+            stale_count(old(self).data@) > vmax(16, old(self).data@.len() as int / 2)
+                ==> final(self).generation.ix() == old(self).generation.ix() + 1 && final(self).data.stale_rows == 0,
+            stale_count(old(self).data@) <= vmax(16, old(self).data@.len() as int / 2)
+                ==> final(self).generation == old(self).generation && final(self).data@ == old(self).data@ && final(self).hash@ == old(self).hash@,
+//@ end-fn
+//@ fn rehash
+//@ at sig
+        requires old(self).wf(), old(self).generation.ix() < u64::MAX,
+        ensures
+            final(self).wf(), same_config(*old(self), *final(self)), same_live(old(self).km(), final(self).km()),
+            final(self).generation.ix() == old(self).generation.ix() + 1, final(self).data.stale_rows == 0,
+//@ end-fn
+//@ end-impl
+
+
+// ---------------- the table API of SortedWritesTable over the keyed-map view (C16) --------------------------------
+impl Generation {
+    // A-id: NumericId::inc (default method: from_usize(index() + 1); panics on overflow)
+    #[verifier::external_body]
+    pub fn inc(self) -> (r: Self) ensures r.ix() == self.ix() + 1 { unimplemented!() }
+}
+impl SortedWritesTable {
+    /// A-db: the removal half of merge(): every staged key is looked up and its row marked stale and unindexed
+    /// (serial_delete / parallel_delete: closures over &mut shards, rayon: not under contract). Only removes.
+    #[verifier::external_body]
+    pub fn serial_delete(&mut self) -> (r: bool)
+        requires old(self).wf(),
+        ensures final(self).wf(), only_removes(*old(self), *final(self)),
+    { unimplemented!() }
+    #[verifier::external_body]
+    pub fn parallel_delete(&mut self) -> (r: bool)
+        requires old(self).wf(),
+        ensures final(self).wf(), only_removes(*old(self), *final(self)),
+    { unimplemented!() }
+    /// A-db: parallel_insert is ASSUMED to meet serial_insert's contract (F2 shows it does not; known finding)
+    #[verifier::external_body]
+    pub fn parallel_insert<C>(&mut self, exec_state: &ExecutionState, checker: C) -> (r: bool)
+        requires old(self).wf(), merge_keeps_key(old(self).n_keys as nat),
+        ensures
+            final(self).wf(), same_config(*old(self), *final(self)), rows_extend(old(self).data@, final(self).data@), final(self).generation == old(self).generation,
+            exists|ts: Seq<KM>, qs: Seq<Seq<Value>>| #![trigger wit(ts, qs)] wit(ts, qs) && chain(old(self).n_keys as nat, old(self).km(), final(self).km(), ts, qs),
+    { unimplemented!() }
+    /// A-db: compaction (Rows::remove_stale with a remapping closure over the hash table and offsets): same live rows,
+    /// no stale rows left; row ids change
+    #[verifier::external_body]
+    pub fn rehash_impl(sort_by: Option<ColumnId>, n_keys: usize, rows: &mut Rows, offsets: &mut Vec<(Value, RowId)>, hash: &mut ShardedHashTable<TableEntry>)
+        requires km_shape(old(rows)@, n_keys as nat), km_entries(old(rows)@, old(hash)@, n_keys as nat), km_distinct(old(rows)@, old(hash)@, n_keys as nat), km_indexed(old(rows)@, old(hash)@),
+        ensures
+            km_shape(final(rows)@, n_keys as nat), km_entries(final(rows)@, final(hash)@, n_keys as nat), km_distinct(final(rows)@, final(hash)@, n_keys as nat), km_indexed(final(rows)@, final(hash)@),
+            final(rows).counted(), final(rows).stale_rows == 0,
+            forall|r: Seq<Value>| #![trigger (KM { rows: final(rows)@, idx: final(hash)@, n_keys: n_keys as nat }).live(r)]
+                (KM { rows: final(rows)@, idx: final(hash)@, n_keys: n_keys as nat }).live(r) <==> (KM { rows: old(rows)@, idx: old(hash)@, n_keys: n_keys as nat }).live(r),
+    { unimplemented!() }
+    #[verifier::external_body]
+    pub fn parallel_rehash(&mut self)
+        requires old(self).wf(),
+        ensures final(self).wf(), same_config(*old(self), *final(self)), same_live(old(self).km(), final(self).km()), final(self).data.stale_rows == 0,
+            final(self).generation.ix() == old(self).generation.ix() + 1,
+    { unimplemented!() }
+}
+pub open spec fn vmax(a: int, b: int) -> int { if a >= b { a } else { b } }
+pub open spec fn same_config(a: SortedWritesTable, b: SortedWritesTable) -> bool {
+    a.n_keys == b.n_keys && a.n_columns == b.n_columns && a.sort_by == b.sort_by
+}
+pub open spec fn same_live(a: KM, b: KM) -> bool { forall|r: Seq<Value>| #![trigger b.live(r)] b.live(r) <==> a.live(r) }
+pub open spec fn only_removes(a: SortedWritesTable, b: SortedWritesTable) -> bool {
+    &&& same_config(a, b) && a.generation == b.generation
+    &&& rows_extend(a.data@, b.data@) && a.data@.len() == b.data@.len()
+    &&& forall|r: Seq<Value>| #![trigger b.km().live(r)] b.km().live(r) ==> a.km().live(r)
+}
+pub open spec fn wit3(d: SortedWritesTable, ts: Seq<KM>, qs: Seq<Seq<Value>>) -> bool { true }
+/// the table's version: (major generation, number of rows ever appended in it)
+pub open spec fn version_of(t: SortedWritesTable) -> (nat, nat) { (t.generation.ix(), t.data@.len()) }
+
+//@ impl core-relations/src/table/mod.rs impl Table for SortedWritesTable => impl SortedWritesTable
+//@ fn merge
+//@ ret r
+//@ at sig
+        requires old(self).wf(), merge_keeps_key(old(self).n_keys as nat), old(self).generation.ix() < u64::MAX,
+        ensures
+            final(self).wf(), same_config(*old(self), *final(self)),
+            // removals first, then every staged row through the merge function, then (maybe) compaction
+            exists|d: SortedWritesTable, ts: Seq<KM>, qs: Seq<Seq<Value>>| #![trigger wit3(d, ts, qs)]
+                only_removes(*old(self), d) && chain(old(self).n_keys as nat, d.km(), ts.last(), ts, qs) && same_live(ts.last(), final(self).km()),
+            // row ids handed out before stay valid unless the major generation changed
+            final(self).generation == old(self).generation ==> rows_extend(old(self).data@, final(self).data@),
+//@ at after-semi 0
+        let ghost d = *self;
+//@ at after-semi 1
+        let ghost i = *self;
+        proof {
+            let (ts, qs) = choose|ts: Seq<KM>, qs: Seq<Seq<Value>>| #![trigger wit(ts, qs)] wit(ts, qs) && chain(d.n_keys as nat, d.km(), i.km(), ts, qs);
+            assert(wit3(d, ts, qs));
+        }
+//@ end-fn
+//@ fn version
+//@ ret r
+//@ at sig
+        requires self.data@.len() <= u32::MAX + 1,
+        ensures r.major == self.generation, r.minor.ix() == self.data@.len(),
+//@ end-fn
+//@ fn has_stale_rows
+//@ ret r
+//@ at sig
+        requires self.data.counted(),
+        ensures r == (stale_count(self.data@) > 0),
+//@ end-fn
+//@ fn len
+//@ ret r
+//@ at sig
+        requires self.data.counted(),
+        ensures r == self.data@.len() - stale_count(self.data@),
+//@ at entry
+        proof { lemma_stale_count_bound(self.data@); }
+//@ end-fn
+//@ fn clear
+//@ at sig
+        requires old(self).wf(), old(self).generation.ix() < u64::MAX,
+        ensures
+            final(self).wf(), same_config(*old(self), *final(self)),
+            final(self).data@.len() == 0, final(self).hash@ == Map::<RowId, u64>::empty(),
+            // a non-empty table changes its major generation (every RowId handed out before is invalid now)
+            old(self).data@.len() > 0 ==> final(self).generation.ix() == old(self).generation.ix() + 1,
+            old(self).data@.len() == 0 ==> final(self).generation == old(self).generation,
+//@ end-fn
+//@ fn get_row
+//@ ret r
+//@ rewrite R-CLOSANN 0 RowId bool
+//@ rewrite R-CLOSANN 1 &PoolSet Vec<Value>
+//@ at sig
+        requires self.wf(), key@.len() == self.n_keys,
+        ensures match r {
+            // point lookup = keyed-map lookup: the live row with this key, if there is one
+            Some(row) => self.hash@.contains_key(row.id) && row.vals@ == self.data@[row.id.ix() as int] && keyof(row.vals@, self.n_keys as nat) == key@,
+            None => forall|id: RowId| #[trigger] self.hash@.contains_key(id) ==> keyof(self.data@[id.ix() as int], self.n_keys as nat) != key@,
+        }
+//@ at entry
+        proof { assert(key@.subrange(0, self.n_keys as int) =~= key@); }
+//@ at closure 0 spec
+            requires row.ix() < self.data@.len(), self.data@[row.ix() as int].len() == table_arity(), !stale(self.data@[row.ix() as int]), self.n_keys <= table_arity()
+            ensures r == (keyof(self.data@[row.ix() as int], self.n_keys as nat) =~= key@)
+//@ at closure 1 spec
+            ensures r@.len() == 0
+//@ end-fn
+//@ fn get_row_column
+//@ ret r
+//@ rewrite R-CLOSANN 0 RowId bool
+//@ at sig
+        requires self.wf(), key@.len() == self.n_keys, col.ix() < table_arity(),
+        ensures match r {
+            Some(v) => exists|id: RowId| #[trigger] self.hash@.contains_key(id) && keyof(self.data@[id.ix() as int], self.n_keys as nat) == key@ && v == self.data@[id.ix() as int][col.ix() as int],
+            None => forall|id: RowId| #[trigger] self.hash@.contains_key(id) ==> keyof(self.data@[id.ix() as int], self.n_keys as nat) != key@,
+        }
+//@ at entry
+        proof { assert(key@.subrange(0, self.n_keys as int) =~= key@); }
+//@ at closure 0 spec
+            requires row.ix() < self.data@.len(), self.data@[row.ix() as int].len() == table_arity(), !stale(self.data@[row.ix() as int]), self.n_keys <= table_arity()
+            ensures r == (keyof(self.data@[row.ix() as int], self.n_keys as nat) =~= key@)
+//@ end-fn
 //@ end-impl
 
 // ---------------- StagedOutputs::insert: the in-batch staging collision path -------------------------------------
@@ -597,35 +898,6 @@ impl StagedOutputs {
         km_shape(self.rows@, self.n_keys as nat) && km_entries(self.rows@, self.hash@, self.n_keys as nat)
         && km_distinct(self.rows@, self.hash@, self.n_keys as nat) && km_indexed(self.rows@, self.hash@)
     }
-}
-/// number of rows marked stale in a row store
-pub open spec fn stale_count(rows: Seq<Seq<Value>>) -> nat
-    decreases rows.len()
-{
-    if rows.len() == 0 { 0 } else { stale_count(rows.drop_last()) + (if stale(rows.last()) { 1nat } else { 0nat }) }
-}
-pub proof fn lemma_stale_count_bound(rows: Seq<Seq<Value>>)
-    ensures stale_count(rows) <= rows.len()
-    decreases rows.len()
-{
-    if rows.len() > 0 { lemma_stale_count_bound(rows.drop_last()); }
-}
-pub proof fn lemma_stale_count_set(a: Seq<Seq<Value>>, b: Seq<Seq<Value>>, i: int)
-    requires a.len() == b.len(), 0 <= i < a.len(), !stale(a[i]), stale(b[i]), forall|j: int| 0 <= j < a.len() && j != i ==> #[trigger] b[j] == a[j],
-    ensures stale_count(b) == stale_count(a) + 1
-    decreases a.len()
-{
-    if i == a.len() - 1 {
-        assert(a.drop_last() =~= b.drop_last());
-    } else {
-        lemma_stale_count_set(a.drop_last(), b.drop_last(), i);
-        assert(a.last() == b.last());
-    }
-}
-pub proof fn lemma_stale_count_push(a: Seq<Seq<Value>>, r: Seq<Value>)
-    ensures stale_count(a.push(r)) == stale_count(a) + (if stale(r) { 1nat } else { 0nat })
-{
-    assert(a.push(r).drop_last() =~= a);
 }
 impl StagedOutputs {
     /// n_stale counts the superseded rows, so len() is the number of live (indexed) rows
